@@ -406,3 +406,61 @@ Print Assumptions C03_dynbt_translated.
 Print Assumptions C03_struct_translated.
 Print Assumptions C03_skeletons_recorded_4.
 Print Assumptions C03_total_translated.
+
+(* ============================================================================================== *)
+(* TRANSLATION TIE, phase 5 *)
+From GoMC Require Import Model.C03_indirect.
+
+(* StringifiedMessage.encode (the binary -> SNBT converter walk) generated statement by statement IS dtext; total *)
+Theorem C03_encode_translated : gen_text = dtext /\
+  (forall fuel dep id s, (length s + 1 < fuel)%nat -> prog s (run_flat (gen_text fuel dep id) s)).
+Proof. exact (conj encode_tie encode_total_translated). Qed.
+
+(* indirect(): one pass over the TRANSLATED statements of its loop (address of a named value, interface descent,
+   break on a non-pointer, break on TagEnd at a settable pointer, allocation of a nil pointer, the Unmarshaler
+   assertion before the TextUnmarshaler one, Elem) routes every destination shape in every state exactly as
+   the model does: pointers allocated / reused and followed, *RawMessage and RawMessage fields through
+   UnmarshalNBT, an interface{} that already holds a value through a new zero value of its Go type *)
+Theorem C03_indirect_translated : forall f dep ty cur id,
+  dst (S f) dep ty cur id = route f dep ty cur id (run_isteps indirect_steps ty cur (id =? idEnd)).
+Proof. exact indirect_route_ok. Qed.
+Theorem C03_indirect_method_order : In (IkMethods [MUnmarshaler; MTextUnmarshaler]) indirect_steps.
+Proof. exact indirect_method_order. Qed.
+
+(* TagByteArray / TagIntArray / TagLongArray into an array destination: element kind lists, length tests, loops *)
+Theorem C03_array_dest_translated : forall f dep n t cur,
+  let c := match cur with YArr l => l | _ => repeat (zero_ty t) (N.to_nat n) end in
+  dst (S f) dep (SArr n t) cur idByteArray = gen_st_array_bytes f dep t c /\
+  dst (S f) dep (SArr n t) cur idIntArray = gen_st_array_int f dep t c /\
+  dst (S f) dep (SArr n t) cur idLongArray = gen_st_array_long f dep t c.
+Proof. exact dst_array_cases_tie. Qed.
+
+(* ALLOCATION (the defect fixed by c3383a8 / bfc32af lived here): with the growth rules TRANSLATED from makeSlice /
+   growSlice / readBytes (first = min(n, maxPrealloc); grown by min(n - len, len) only once every allocated element
+   has been read), whatever count n the input declares, in every reachable state (a elements allocated, r read):
+   a <= n, and a <= maxPrealloc or a <= 2 r - nothing is allocated in proportion to a declared count that the
+   stream has not backed; dynbt's appendN step is at most max(bytes held, 64 KiB) and at most what is still declared *)
+Theorem C03_alloc_bounded_translated : forall n, (0 <= n)%Z ->
+  (forall a r, areach gen_makeSlice_len gen_growSlice_len n a r -> alloc_inv n a r) /\
+  (forall a r, areach gen_readBytes_first gen_readBytes_grow n a r -> alloc_inv n a r) /\
+  (forall start, (0 <= start)%Z -> (0 < n)%Z ->
+     (0 < gen_appendN_step start n <= n)%Z /\ (gen_appendN_step start n <= Z.max start 65536)%Z).
+Proof.
+  intros n Hn. split; [intros; now apply alloc_bounded_slices|]. split; [intros; now apply alloc_bounded_bytes|].
+  intros. now apply alloc_bounded_appendN.
+Qed.
+Example C03_ex_alloc :   (* 2^31-1 declared, 70000 elements delivered: at most 131072 allocated *)
+  areach gen_makeSlice_len gen_growSlice_len 2147483647 65536 0 /\
+  gen_growSlice_len 65536 2147483647 = 131072%Z /\ gen_growSlice_len 131072 2147483647 = 262144%Z /\
+  gen_growSlice_len 65536 70000 = 70000%Z.
+Proof. split; [apply (ar_init gen_makeSlice_len gen_growSlice_len 2147483647)|repeat split; reflexivity]. Qed.
+
+Theorem C03_map_dest_translated : gen_map = dmap.
+Proof. exact unmarshal_map_tie. Qed.
+
+Print Assumptions C03_map_dest_translated.
+Print Assumptions C03_encode_translated.
+Print Assumptions C03_indirect_translated.
+Print Assumptions C03_indirect_method_order.
+Print Assumptions C03_array_dest_translated.
+Print Assumptions C03_alloc_bounded_translated.
